@@ -354,22 +354,32 @@ func c11Impl(c *core.Ctx, r *core.Reporter) {
 			r.Unknown(caller+"/impl-check", token.NoPos, "not found")
 			continue
 		}
-		cs := core.CallsTo(fn, aoi, false)
+		cs := c.RegionCallsTo(fn, aoi) // the nested loops may live in a helper extracted from fn
 		ok := len(cs) == 1
 		if ok {
 			n := 0
-			for _, l := range core.Loops(fn) {
+			for _, l := range core.Loops(cs[0].Parent()) {
 				if l[cs[0].Block()] {
 					n++
 				}
 			}
 			ok = n >= 2 && core.HasClass(cs[0].Common().Args[2], "index(call:Object.Interfaces)")
-			// error returned
-			call := cs[0].(*ssa.Call)
-			ret := false
-			for _, ref := range *call.Referrers() {
-				if bo, isBo := ref.(*ssa.BinOp); isBo && bo.Op == token.NEQ {
-					ret = true
+			// error returned: tested where it is produced and, through an extracted helper, where the helper is called
+			tested := func(v ssa.Value) bool {
+				for _, ref := range *v.Referrers() {
+					if bo, isBo := ref.(*ssa.BinOp); isBo && bo.Op == token.NEQ {
+						return true
+					}
+					if _, isRet := ref.(*ssa.Return); isRet {
+						return true
+					}
+				}
+				return false
+			}
+			ret := tested(cs[0].(*ssa.Call))
+			if at := c.Anchor(fn, cs[0]); at != nil && at != ssa.Instruction(cs[0]) {
+				if call, isCall := at.(*ssa.Call); !isCall || !tested(call) {
+					ret = false
 				}
 			}
 			ok = ok && ret
